@@ -127,7 +127,10 @@ def check_region_background(ctx):
   trav.check_anim_cover(ctx, f, f.params[0])
   # and the content interval uses it only to *extend* the interval
   st = ix.func("ttconv.isd:ISD.significant_times.<locals>.compute_sig_times")
-  ctx.check("_region_always_has_background(element)" in unparse(st.node), "ORD-anim", f"{st.qualname}|regions with background extend the content interval",
+  # (the call, on whatever name holds the element, inside the test that extends the content interval)
+  uses_pred = any(isinstance(t_, ast.If) and "content_interval" in unparse(t_) and any(isinstance(c_, ast.Call) and unparse(c_.func).endswith("_region_always_has_background") for c_ in ast.walk(t_.test))
+                  for t_ in own_nodes(st.node))
+  ctx.check(uses_pred, "ORD-anim", f"{st.qualname}|regions with background extend the content interval",
             ctx.where(st.module, st.node), "used", "regions that always paint a background no longer extend the content interval")
 
 
